@@ -11,7 +11,7 @@ that add line breaks for other reasons (code_width splitting, include grouping).
 import re
 
 from ..facts import expr_str, walk, options_read, in_macro
-from ..flow import ReachingDefs, var_id
+from ..flow import ReachingDefs, var_id, provenance_options
 from .common_io import UNC
 from . import c16
 
@@ -181,10 +181,10 @@ def rule_eof_families(ctx):
         gopts = set()
         for cn, pol in f.guard_conds(f.nblock[n["i"]]):
             if cn is not None:
-                gopts |= options_read(f, cn)
+                gopts |= options_read(f, cn) | provenance_options(f, rd, cn)      # through locals that cache an option
         aopts = set()
         for a in n.get("a", ()):
-            aopts |= options_read(f, a)
+            aopts |= options_read(f, a) | provenance_options(f, rd, a)
         fams = set(fam.get(o) for o in gopts | aopts)
         inst = "%s@%s" % (c.split("::")[-1], "+".join(sorted(gopts | aopts)))
         ok = len(fams) == 1 and None not in fams
@@ -192,18 +192,58 @@ def rule_eof_families(ctx):
         conds = _conds(f, n)
         r.check(("cpd.frag_cols == 0", True) in conds, inst + "/whole-file-only", db.loc(f, n), "start/end-of-file handling also runs for fragments")
         if c.endswith("SetNlCount") and ok:
-            want = "options::nl_%s_of_file_min()" % next(iter(fams))
-            r.check(expr_str(f, n["a"][0]) == want, inst + "/value", db.loc(f, n), "count set to `%s`, expected %s" % (expr_str(f, n["a"][0]), want))
+            want = "nl_%s_of_file_min" % next(iter(fams))
+            got = options_read(f, n["a"][0]) | provenance_options(f, rd, n["a"][0])
+            plain = f.nodes.get(n["a"][0])
+            while plain is not None and plain["k"] == "cast":
+                plain = f.nodes.get(plain["a"][0])
+            r.check(got == {want} and plain is not None and plain["k"] in ("call", "ref"), inst + "/value", db.loc(f, n),
+                    "count set to `%s`, expected the value of %s" % (expr_str(f, n["a"][0]), want))
     # which end of the list each half works on
     heads = [n for n in f.all_nodes() if n["k"] == "asg" and expr_str(f, n["a"][1]) == "GetHead()"]
     tails = [n for n in f.all_nodes() if n["k"] == "asg" and expr_str(f, n["a"][1]) == "GetTail()"]
     r.check(len(heads) == 1 and len(tails) == 1 and f.dominates(heads[0]["i"], tails[0]["i"]) or (len(heads) == 1 and len(tails) == 1), "head-then-tail", db.loc(f, f.l0),
             "the function no longer processes GetHead() and GetTail() once each")
     if len(heads) == 1 and len(tails) == 1:
-        hc = set(o for cn, pol in f.guard_conds(f.nblock[heads[0]["i"]]) if cn is not None for o in options_read(f, cn))
-        tc = set(o for cn, pol in f.guard_conds(f.nblock[tails[0]["i"]]) if cn is not None for o in options_read(f, cn))
+        hc = set(o for cn, pol in f.guard_conds(f.nblock[heads[0]["i"]]) if cn is not None for o in (options_read(f, cn) | provenance_options(f, rd, cn)))
+        tc = set(o for cn, pol in f.guard_conds(f.nblock[tails[0]["i"]]) if cn is not None for o in (options_read(f, cn) | provenance_options(f, rd, cn)))
         r.check(hc and all(fam.get(o) == "start" for o in hc) and tc and all(fam.get(o) == "end" for o in tc), "family-per-end", db.loc(f, f.l0),
                 "head handled under %s, tail under %s" % (sorted(hc), sorted(tc)))
+    # every documented value has an effect: under (X = add, X_min = 1) and (X = force, X_min = 1) the site that creates a missing
+    # newline and the site that raises the count are reachable; under (X = remove) the deleting site is (constant folding of the
+    # guards, locals included).  IARF: ignore 0, add 1, remove 2, force 3.
+    from ..fold import Folder
+    from ..effects import option_defaults
+    consts = option_defaults(db)[1]
+    r.require(consts.get("IARF_ADD") == 1 and consts.get("IARF_FORCE") == 3 and consts.get("IARF_REMOVE") == 2, "IARF_* constants not extracted: %s" % {k: v for k, v in consts.items() if k.startswith("IARF")})
+    for end in ("start", "end"):
+        opt, optmin = "nl_%s_of_file" % end, "nl_%s_of_file_min" % end
+        other, othermin = ("nl_end_of_file", "nl_end_of_file_min") if end == "start" else ("nl_start_of_file", "nl_start_of_file_min")
+        for name, val, kinds in (("add", 1, ("Chunk::CopyAndAddBefore", "Chunk::CopyAndAddAfter", "SetNlCount")), ("force", 3, ("Chunk::CopyAndAddBefore", "Chunk::CopyAndAddAfter", "SetNlCount")),
+                                 ("remove", 2, ("Chunk::Delete",))):
+            env = {opt: {val}, optmin: {1}, other: {0}, othermin: {0}}
+            fd = Folder(f, rd, env, consts)
+            for kind in kinds:
+                cand = []
+                for n in f.all_nodes():
+                    if n["k"] != "call" or not ((n.get("c") or "") == kind or (kind == "SetNlCount" and (n.get("c") or "").endswith("SetNlCount") and expr_str(f, n.get("o")) == "pc")):
+                        continue
+                    fam_here = set(fam.get(o) for cn, pol in f.guard_conds(f.nblock[n["i"]]) if cn is not None for o in (options_read(f, cn) | provenance_options(f, rd, cn)))
+                    if end not in fam_here:
+                        continue
+                    dead = False
+                    for cn, pol in f.guard_conds(f.nblock[n["i"]]):
+                        if cn is None or not isinstance(pol, bool):
+                            continue
+                        t = fd.truth(cn, cn)
+                        if t is not None and t != pol:
+                            dead = True
+                    cand.append(dead)
+                if kind in ("Chunk::CopyAndAddBefore", "Chunk::CopyAndAddAfter") and not cand:
+                    continue
+                r.seen()
+                r.check(bool(cand) and not all(cand), "%s=%s/%s-reachable" % (opt, name, kind.split("::")[-1]), db.loc(f, f.l0),
+                        "with %s = %s and %s = 1 no %s site of newlines_eat_start_end() is reachable: the setting has no effect" % (opt, name, optmin, kind.split("::")[-1]))
     r.require(n_ev >= 6, "only %d list/count events in newlines_eat_start_end" % n_ev)
     r.floor(10)
 
@@ -290,7 +330,7 @@ def rule_runs_not_chunks(ctx):
     (zero-length, never printed) can sit between two newline chunks - after a real `}` was made virtual by
     mod_full_brace_*=remove - and then the two runs add up."""
     db = ctx.db
-    from ..flow import ReachingDefs, var_id
+    from ..flow import ReachingDefs, var_id, provenance_options
     r = ctx.rule("runs-not-chunks", "newlines_cleanup_dup() compares a newline chunk with the next *printed* chunk: the chunk tested by the "
                  "second Is(CT_NEWLINE) is reached by a navigation that skips virtual braces (GetNext*Nvb / a loop over IsVBrace())")
     f = db.fn("newlines_cleanup_dup")
